@@ -541,4 +541,17 @@ example : ∃ v, reqVerdict { ver := ⟨1, 1⟩, method := ascii "POST", hasData
     v.wire = .length 3 ∧ v.view.framing = .length 3 :=
   ⟨_, rfl, by decide +kernel⟩
 
+/-! ## an upload whose source failed is never terminated -/
+
+/-- **A failed upload stays visibly incomplete.**  Whenever the body source did not finish
+(it raised, or the writer task was cancelled) `_write_bytes` does not call `write_eof()` — so a
+chunked body gets no terminating `0\r\n\r\n` and, by C04 `no_premature_terminator`, the wire
+holds only complete data chunks: the server cannot take the prefix for the whole body — and the
+request fails for the caller or the connection is closed.  Only a completely written body is
+terminated. -/
+theorem failed_source_no_terminator (o : SrcOutcome) :
+    ((writeBytesEnd o).writesEof = true ↔ o = .ok) ∧
+    (o ≠ .ok → (writeBytesEnd o).failsRequest = true ∨ (writeBytesEnd o).closesConn = true) := by
+  cases o <;> simp [writeBytesEnd]
+
 end Aio.C02
